@@ -226,6 +226,8 @@ def main():
         return diffs_all, merged
 
     changed = src_changed_files()
+    if os.environ.get("VERIF_DEEP") == "1" and not changed:
+        changed = ["<VERIF_DEEP=1: deep generators forced on an unchanged source>"]
     if changed:
         log.append("source differs from the recorded baseline in %s: the deep generators run at once" % ", ".join(changed))
     corr_diffs, ores = one_pass(bool(changed) and tier != "thorough")
